@@ -93,6 +93,28 @@ def run(ck):
         ck.ob("SIB", ipv.path, "transcript-reference", lv == REF["ip"], "verifier sequence %s" % lv, ipv.loc())
         ck.ob("SIB", ipv.path, "prover-agrees", lp == lv, "prover %s" % lp, ipp.loc())
         enf_calls(ck, ipv, r"Field::inverse$", "u_j.inverse", floor=0)
+    if ipv:
+        # the number of rounds is tied to the vector length: n = 2^k with k = lr_vec.len(). Without this test a proof for
+        # n = 0 (empty set) is checked against misaligned bases/exponents that multiexp silently zip-truncates, and a proof
+        # with too few rounds indexes u_sq below zero
+        tied = []
+        POW = r"checked_shl$|::pow$|::checked_pow$|trailing_zeros$|::ilog2$|is_power_of_two$|::shl$"
+        cl_pow = False
+        c0 = crate("rs", CB)
+        for cp in [p2 for p2 in c0.paths() if p2.startswith(ipv.path + "::{closure")]:
+            for cb in c0.get_all(cp):
+                gcl = Fn(cb)
+                if gcl.calls(POW) or any(st.get("rv", {}).get("k") == "bin" and st["rv"]["op"].startswith("Shl") for bi in gcl.reachable() for st in gcl.stmts(bi)):
+                    cl_pow = True
+        for cx in rules.comparisons(ipv):
+            rel, d = rules.cmp_rejects(ipv, cx)
+            o = ipv.origins(cx["a"], deep=True) | ipv.origins(cx["b"], deep=True)
+            power = any(a[0] == "bin" and a[1].startswith("Shl") for a in o) or has_call_origin(o, POW) or (cl_pow and has_call_origin(o, r"Option::<T>::(and_then|map)$"))
+            if rel == "Ne" and ("arg", 2) in o and ("field", "lr_vec") in o and power:
+                tied.append(cx)
+        ck.ob("CMP", ipv.path, "rounds-tied-to-vector-length", len(tied) >= 1,
+              "rejects unless n == 2^(number of (L, R) pairs)" if tied else
+              "no enforced relation between n and the number of (L, R) pairs: for n = 0 (empty set) the final equation is evaluated on misaligned, zip-truncated bases and exponents and can be satisfied by a forger; too few pairs index u_sq out of range", ipv.loc())
     g = getfn(ck, "rs", CB, B + "inner_product_proof::verify_inner_product_with_scalars")
     if g:
         enf_calls(ck, g, r"inner_product_proof::verify_scalars$", "verify_scalars")
